@@ -18,7 +18,7 @@ func genC16(seed uint64, tier string, idx int) *Plan {
 	if tier == "thorough" && g.r.chance(5) {
 		mc, cm = 300, 4
 	}
-	g.genUpload(ci, attOpts{maxFiles: 3, maxChunks: mc, chunkMax: cm, withhold: true})
+	g.genUpload(ci, attOpts{maxFiles: 3, maxChunks: mc, chunkMax: cm, withhold: true, grouped: g.r.chance(40)})
 	p.Sched = g.sched()
 	p.MaxStep = 300000
 	return p
@@ -37,6 +37,10 @@ func checkC16(r *Result) []Violation {
 		}
 		ctl, v := checkAttReplies(r, "C16", ci)
 		if v != nil {
+			if v.Rule == "C16.extra_reply" {
+				v.Rule, v.Sig = "C16.unsolicited_completion_response", "C16.unsolicited_completion_response"
+				return append(vs, *v)
+			}
 			if v.Rule == "C16.wrong_reply" || v.Rule == "C16.undecodable_reply" {
 				return append(vs, *v)
 			}
